@@ -50,6 +50,20 @@ class BuiltinMixin(CallMixin):
             self.oblige(st, c, "stub-pre", line, str(args[1]) if len(args) > 1 else "require")
             st.assume(c)
             return [(st, None)]
+        if name == "seq_of":
+            v = args[0]
+            if isinstance(v, tuple) and len(v) == 3 and v[0] == "$map" and isinstance(v[1], Builtin) and v[1].name in ("memoryview", "bytes"):
+                v = v[2]
+            if isinstance(v, Ref) and META[v.oid].kind == "generator":
+                return self.drain_producer(st, ctx, v, line)
+            if is_z3(v) and v.sort() == smt.BytesSeq:
+                return [(st, v)]
+            if isinstance(v, tuple):
+                if not v:
+                    return [(st, z3.Empty(smt.BytesSeq))]
+                units = [z3.Unit(ops.as_bytes(st, x)) for x in v]
+                return [(st, units[0] if len(units) == 1 else z3.Concat(*units))]
+            raise EngineError(f"seq_of({v!r})")
         if name == "raise_any":
             # one path per representative class below the given base (handlers only discriminate by named classes)
             from .interp import EXC_REPRESENTATIVES
@@ -277,11 +291,11 @@ class BuiltinMixin(CallMixin):
                 v = args[0]
                 if isinstance(v, Ref) and META[v.oid].kind == "generator":
                     self.oblige(st, smt.L(s) == 0, "model", line, "join-on-empty-separator")
-                    return [(s2, r if isinstance(r, Raise) else smt.flat(r)) for s2, r in self.drain_producer(st, ctx, v, line)]
+                    return [(s2, r if isinstance(r, Raise) else smt.flat_app(r)) for s2, r in self.drain_producer(st, ctx, v, line)]
                 if is_z3(v) and v.sort() == smt.BytesSeq:
                     # only b"".join is modelled exactly
                     self.oblige(st, smt.L(s) == 0, "model", line, "join-on-empty-separator")
-                    return [(st, smt.flat(v))]
+                    return [(st, smt.flat_app(v))]
                 items = self.concrete_items(st, v)
                 if not items:
                     return [(st, smt.EMPTY)]
@@ -502,7 +516,9 @@ class BuiltinMixin(CallMixin):
         if name == "no_occ":
             return smt.no_occ_range(B(a[0]), B(a[1]), a[2], a[3] if len(a) > 3 else None)
         if name == "flat":
-            return smt.flat(a[0])
+            return smt.flat_app(a[0])
+        if name == "tail":
+            return smt.tl(a[0])
         if name in ("view_lo", "view_hi"):
             v = args[0]
             if isinstance(v, Opt):
